@@ -75,7 +75,7 @@ add("C04", "vcheck", "exploration", MB,
     "Generated storage programs (up to 60 / 400 operations, sizes around the 16-byte header, 5% invalid operations) on MemoryStorage, FileStorage and FileStorageMemoryMapped against a reference map index->bytes, compared after every step; optimize must leave no unused space; reopen must preserve everything. Quick also replays the fuzz seed corpus; thorough adds a 150 s libFuzzer campaign (fuzz_storage_ops, same oracle in the target).",
     "Uses the VerifStorage wrapper (hook H1) because Storage is crate-private. move_at semantics (copy, then zero the non-overlapped remainder of the source) is the contract DbVec relies on and the storage unit tests document.", "DESIGN 3/C04")
 add("C32", "vcheck", "fault_enumeration", "fault injection through a public StorageData wrapper, positions and histories generated by proptest, reference model for the behaviour after the fault",
-    "Generated histories on DbImpl<Faulty<FileStorage>>: one generated storage write/resize call inside one generated query fails (clean or short write); the query must return Err and leave no effect, later queries must conform to the reference model and survive close + reopen with both file variants. The listed known findings (one root cause) are met on most fault positions; they are counted and the campaign continues. A second campaign injects the same faults on a storage without recovery log, with signatures by the kind of the hit query: kinds that are clean on the unchanged tree (remove_aliases, remove_index) must stay clean.",
+    "Generated histories on DbImpl<Faulty<FileStorage>>: one generated storage write/resize call inside one generated query fails (clean or short write); the query must return Err and leave no effect, later queries must conform to the reference model and survive close + reopen with both file variants. The listed known findings (one root cause) are met on most fault positions; they are counted and the campaign continues. A second campaign injects the same faults on a storage without recovery log, with signatures by the kind of the hit query: kinds that are clean on the unchanged tree (remove_aliases) must stay clean.",
     "Only write/resize calls made inside queries are failed (never Drop/reopen). Failure symptoms are classified coarsely (six classes) because they share one root cause, see known_findings.json.", "DESIGN 3/C32, appendix D")
 
 add("C07", "vcheck", "exploration", "structured mutation of valid database files generated by proptest (record-aware truncation, header/root/word overwrites with boundary values, bit flips, damaged recovery logs) with the oracle in isolated child processes under an allocation cap",
